@@ -292,11 +292,13 @@ Fixpoint child_by_ns (children : list (option str)) (ns : str) : bool :=
   | None :: r => child_by_ns r ns
   end.
 
-Definition ns_match (flt : option str) (sz : stanza) : bool :=
+(* !item->u.ns || (ns && strcmp(ns, item->u.ns) == 0) ||
+   (item->user_handler && xmpp_stanza_get_child_by_ns(stanza, item->u.ns)) *)
+Definition ns_match (user : bool) (flt : option str) (sz : stanza) : bool :=
   match flt with
   | None => true
   | Some f =>
-    (match st_ns sz with Some n => str_eqb n f | None => false end) || child_by_ns (st_children sz) f
+    (match st_ns sz with Some n => str_eqb n f | None => false end) || (user && child_by_ns (st_children sz) f)
   end.
 
 Definition two64 : Z := 18446744073709551616.
@@ -306,7 +308,8 @@ Definition elapsed (t1 t2 : Z) : Z := (t2 - t1) mod two64.       (* time_elapsed
 Definition fmatch (k : kind) (it : item) (sz : stanza) (now : Z) : bool :=
   match k, i_flt it with
   | KId _, _ => true
-  | KStanza, FStanza ns name type => ns_match ns sz && opt_match name (st_name sz) && opt_match type (st_type sz)
+  | KStanza, FStanza ns name type =>
+    ns_match (i_user it) ns sz && opt_match name (st_name sz) && opt_match type (st_type sz)
   | KTimed, FTimed period last => period <=? elapsed last now
   | KGlobal, FTimed period last => period <=? elapsed last now
   | _, _ => false
